@@ -143,8 +143,11 @@ Fixpoint visit_elems (f : node -> res (node * list hit)) (i : nat) (es : list no
   end.
 
 (* doSeq: visit every element; if nothing was returned and Create is set, append the new element and
-   start over (Go: `return p.doSeq(rn)`), at most [f] times. *)
-Fixpoint retry_loop (visit : node -> res (node * list hit)) (new_elem : node) (cr : bool)
+   search again (Go: `return p.doSeq(rn)`).  Since the repair of the create-and-retry loop
+   ([gen_match_doseq_guarded]: `if p.appended { return nil, err }; p.appended = true`) a second search
+   that finds nothing is an error; before it the loop went on, which is what [f] bounds
+   ([app] = the element has been appended already). *)
+Fixpoint retry_loop (visit : node -> res (node * list hit)) (new_elem : node) (cr : bool) (app : bool)
          (f : nat) (es : list node) {struct f} : res (list node * list hit) :=
   match f with
   | O => Diverge
@@ -152,7 +155,11 @@ Fixpoint retry_loop (visit : node -> res (node * list hit)) (new_elem : node) (c
       do r <- visit_elems visit 0 es;
       match snd r with
       | _ :: _ => Ok r
-      | [] => if cr then retry_loop visit new_elem cr f' (fst r ++ [new_elem])%list else Ok r
+      | [] =>
+          if cr then
+            (if gen_match_doseq_guarded && app then Err
+             else retry_loop visit new_elem cr true f' (fst r ++ [new_elem])%list)
+          else Ok r
       end
   end.
 
@@ -216,7 +223,7 @@ Section PM.
                         end
                     | _ => Ok (e, [])
                     end in
-                let retry := retry_loop visit_one (pm_new_elem fld v) is_create in
+                let retry := retry_loop visit_one (pm_new_elem fld v) is_create false in
                 match n with
                 | Seq es => do r <- retry fuel es; Ok (Seq (fst r), snd r)
                 | _ =>
